@@ -453,6 +453,8 @@ def _members(ast) -> t.List[t.Any]:
     if isinstance(ast, str):
         if ast in grammar.DC_SPECS:
             return _dc_members(grammar.DC_SPECS[ast])
+        if ast in grammar.EXT_MEMBERS:
+            return list(grammar.EXT_MEMBERS[ast])
         return list(LEAF_MEMBERS[ast])
     c = ast[0]
     if c in _SEQ_IMAGE:
@@ -497,10 +499,13 @@ def _members(ast) -> t.List[t.Any]:
         return out
     if c == 'annot':
         good = []
-        for m in members(ast[1]):
-            r = ref(ast, m)
-            if r[0] == OK:
-                good.append(m)
+        try:
+            for m in members(ast[1]):
+                r = ref(ast, m)
+                if r[0] == OK:
+                    good.append(m)
+        except KeyError:       # model-free leaf or user condition: no filtering possible
+            return members(ast[1])
         return good or members(ast[1])[:1]
     raise KeyError(c)
 
